@@ -69,7 +69,8 @@ impl<'a> Paseto<'a, V3, Public> {
         let mut msg_digest = sha2::Sha384::new();
         msg_digest.update(&*m2);
         let signature: Signature = signing_key
-            .try_sign_digest(msg_digest)?;
+            .try_sign_digest(msg_digest)
+            .map_err(|source| PasetoError::ECSDAError { source })?;
         let raw_payload = RawPayload::<V3, Public>::from(&self.payload, &signature.to_bytes());
         Ok(self.format_token(&raw_payload))
     }
